@@ -30,7 +30,6 @@ import (
 	"pgregory.net/rapid"
 	"verifharness/internal/ev"
 	"verifharness/internal/gen"
-	"verifharness/internal/kf"
 	"verifharness/internal/rt"
 )
 
@@ -297,7 +296,7 @@ func (g *egen) num(d int) cx {
 			}
 			c.ops = append(c.ops, op)
 			if g.chance(20) {
-				c.es = append(c.es, g.leafText(g.pick([]string{"0", "0xffffffff", "1", "0xff"}), 'n'))
+				c.es = append(c.es, g.leafText(g.pick([]string{"0", "0xffffffff", "1", "0xff", "-1", "-1"}), 'n'))
 			} else {
 				c.es = append(c.es, g.operand(g.noise(d-1, g.num)))
 			}
@@ -503,7 +502,7 @@ func absorbingVal(fam string, v core.Value) bool {
 	case "mul", "bitand":
 		return v.Type() == core.Zero.Type() && v.Equal(core.Zero)
 	case "bitor":
-		return v.Type() == core.Zero.Type() && v.Equal(core.IntVal(0xffffffff))
+		return v.Type() == core.Zero.Type() && v.Equal(core.IntVal(-1))
 	}
 	return false
 }
@@ -578,18 +577,13 @@ func TestC30(t *testing.T) {
 	rec := ev.New("C30", "rapid-generated typed expression trees (depth <= 3, <= 8 leaves) over a pool of constants of every type (numbers of all sizes/representations, strings, booleans, dates, objects) with every unary, binary, n-ary and ternary operator, in, Number?/String?/Date?, and the patterns the folder rewrites (x>a and x<b, x is a or x is b, not(a<b), short circuits); compiled as run-time version (all parameters), all-literal, mixed literal/parameter and single-assignment-locals versions; all must give an equal value of the same type or all must fail. Non-trivial: the folded AST of the literal or mixed or locals version differs from the unfolded AST (the folder / PropFold rewrote something); distinct = by the literal source text plus the mixed assignment.")
 	rec.Assumptions = []string{
 		"expressions with an arithmetic chain of >= 3 operands (or nested chains) use only small exactly representable numbers and finite-expansion divisors: the folder's reassociation is exact there; other expressions use the full number range",
+		"documented (suneidoc Language/Expressions/Overview.md): a chain with a constant absorbing element (x * 0, x and false, x or true, x & 0, x | -1) is compiled to that constant, run-time evaluation could throw: chains with an absorbing operand whose run-time evaluation raises are excluded (excluded_documented); operands WITH side effects must still be evaluated: sub-property side_effects",
+		"documented limit (suneidoc Number.md: integers have 16 digits of precision; same ruling as C26 integer-decimal-beyond-16): subtraction of -9223372036854775808, a decimal identity (0 / 1) next to an integer of 17+ digits, and equal numbers with two display texts (integer >= 1e16 vs decimal) are excluded (excluded_documented)",
 		"a compile-time 'cannot do math on <type> literal' is accepted as the counterpart of the run-time conversion error; when the run-time version succeeds because the string converts (\"5\" + 1) the compile-time rejection is counted as static check (label static_literal_check_stricter) and not judged",
 		"a compile-time error of the literal / mixed / locals version while the run-time version succeeds is accepted (counted, not judged) only when some sub-expression fails when evaluated on its own at run time, i.e. the folder evaluated eagerly a constant operand that short-circuit evaluation skips (`false and not \"\"`): a loud static rejection of dead code, not a changed result",
 		"error messages are not compared, only fail vs value",
 	}
 	defer rec.Write()
-
-	kfAbs, kfAbsOK := kf.Known("C30", "absorbing-constant-drops-operands")
-	kfBitor, kfBitorOK := kf.Known("C30", "bitops-fold-32bit")
-	kfRecip, kfRecipOK := kf.Known("C30", "const-dividend-becomes-reciprocal-multiply")
-	kfMin, kfMinOK := kf.Known("C30", "folded-minus-minint64")
-	kfPool, kfPoolOK := kf.Known("C30", "constant-pool-merges-representations")
-	kfDrop, kfDropOK := kf.Known("C30", "dnum-identity-dropped-beyond-16")
 
 	rt.Check(t, rec, "shapes", 7000, 200000, func(t *rapid.T) {
 		g := &egen{t: t}
@@ -638,46 +632,32 @@ func TestC30(t *testing.T) {
 			{"loc", "function () { " + locals.String() + renderCx(e, func(i int) string { return fmt.Sprint("v", i) }) + " }", nil},
 		}
 
-		// known findings: an n-ary chain with a literal absorbing element is
-		// replaced by that element. (1) its other operands are not evaluated:
-		// matters iff evaluating the chain at run time raises; (2) 0xffffffff
-		// is not absorbing for | on 64-bit operands: matters iff the run-time
-		// value of the chain is not 0xffffffff. The predicates evaluate exactly
-		// the chain (all-parameter form), nothing else of the expression.
-		absFails, absBitor := false, false
+		// Documented (suneidoc Language/Expressions/Overview.md: "x * 0 will be
+		// compiled to 0, whereas runtime evaluation could throw an exception if
+		// x is not a number. This also applies to and, or, &, |"): a chain with a
+		// constant absorbing element (false / true / 0 / 0 / -1) is replaced by
+		// it and its pure operands are not evaluated. That can only lose an
+		// exception: excluded iff the chain has an absorbing operand and its
+		// run-time evaluation raises. (Operands with side effects are the
+		// business of the sub-property side_effects below.)
+		absFails := false
 		walkCx(e, func(x cx) {
 			c, ok := x.(*cxNary)
-			if !ok {
+			if !ok || absFails {
 				return
 			}
-			has := false
 			switch c.fam {
 			case "and", "or", "mul", "bitand", "bitor":
 			default:
 				return
 			}
-			wide, allones := false, false
+			has := false
 			for _, o := range c.es {
 				// an operand that is (or folds to) the absorbing element
 				r := compileAndCall("function ("+strings.Join(allParams, ", ")+") { "+renderCx(o, pname)+" }", allArgs...)
-				if r.failed() || r.v == nil {
-					continue
-				}
-				if absorbingVal(c.fam, r.v) {
+				if !r.failed() && r.v != nil && absorbingVal(c.fam, r.v) {
 					has = true
 				}
-				if n, ok := r.v.IfInt(); ok && (n < 0 || n > 0xffffffff) {
-					wide = true
-				}
-				if n, ok := r.v.IfInt(); ok && n == 0xffffffff {
-					allones = true
-				}
-			}
-			if wide && (c.fam == "bitand" || c.fam == "bitor" && has) {
-				absBitor = true
-			}
-			if c.fam == "bitand" && allones {
-				absBitor = true
 			}
 			if !has {
 				return
@@ -688,45 +668,17 @@ func TestC30(t *testing.T) {
 			}
 		})
 		if absFails {
-			rec.Label("absorbing_chain_that_fails_at_run_time")
-			if kfAbsOK {
-				rec.Case(false, shapes[1].src)
-				rec.Excluded("absorbing-constant-drops-operands")
-				rec.Known(kfAbs.What)
-				return
-			}
-		}
-		if absBitor {
-			rec.Label("bitand_bitor_chain_outside_32bit")
-			if kfBitorOK {
-				rec.Case(false, shapes[1].src)
-				rec.Excluded("bitops-fold-32bit")
-				rec.Known(kfBitor.What)
-				return
-			}
+			rec.Case(false, shapes[1].src)
+			rec.Excluded("excluded_documented: absorbing constant replaces a chain whose run-time evaluation raises (Expressions/Overview.md)")
+			return
 		}
 
-		// known finding: c / x with constant c and non-constant x is compiled
-		// as (1 / x) * c. Predicate: the folded AST of a version contains a
-		// * / chain that begins with a division; the source language cannot
-		// express that, only this rewriting produces it.
-		recip := false
-		for i := 1; i < len(shapes); i++ {
-			if strings.Contains(astOf(shapes[i].src, true), "Nary(Mul Unary(Div ") {
-				recip = true
-			}
-		}
-		if recip {
-			rec.Label("const_dividend_over_variable_divisor")
-			if kfRecipOK {
-				rec.Case(false, shapes[2].src)
-				rec.Excluded("const-dividend-becomes-reciprocal-multiply")
-				rec.Known(kfRecip.What)
-				return
-			}
-		}
-
-		// known finding: folded `x - MinInt64` (F2 through the folder)
+		// Documented limit (suneidoc Number.md "Integers have 16 digits of
+		// precision"; same ruling as C26 integer-decimal-beyond-16): the three
+		// predicates below identify expressions whose folded and run-time
+		// evaluation differ only beyond 16 significant digits.
+		const doc16 = "excluded_documented: 16 digit limit (Number.md) - "
+		// (a) folded `x - MinInt64` goes through unary minus (a 19 digit value)
 		hdr := "function (" + strings.Join(allParams, ", ") + ") { "
 		minint := false
 		walkCx(e, func(x cx) {
@@ -752,17 +704,13 @@ func TestC30(t *testing.T) {
 			}
 		})
 		if minint {
-			rec.Label("subtracts_minint64")
-			if kfMinOK {
-				rec.Case(false, shapes[1].src)
-				rec.Excluded("folded-minus-minint64")
-				rec.Known(kfMin.What)
-				return
-			}
+			rec.Case(false, shapes[1].src)
+			rec.Excluded(doc16 + "subtraction of -9223372036854775808")
+			return
 		}
-		// known finding: an integer-valued SuDnum equal to the identity is
-		// dropped by the folder; at run time it switches the chain to decimal
-		// arithmetic (matters only next to integers of 17+ digits)
+		// (b) an integer-valued SuDnum equal to the identity is dropped by the
+		// folder; at run time it switches the chain to decimal arithmetic
+		// (matters only next to integers of 17+ digits)
 		dropped := false
 		walkCx(e, func(x cx) {
 			c, ok := x.(*cxNary)
@@ -788,16 +736,12 @@ func TestC30(t *testing.T) {
 			}
 		})
 		if dropped {
-			rec.Label("dnum_identity_next_to_17_digit_integer")
-			if kfDropOK {
-				rec.Case(false, shapes[1].src)
-				rec.Excluded("dnum-identity-dropped-beyond-16")
-				rec.Known(kfDrop.What)
-				return
-			}
+			rec.Case(false, shapes[1].src)
+			rec.Excluded(doc16 + "decimal identity next to an integer of 17+ digits")
+			return
 		}
-		// known finding: the constant pool merges equal numbers of different
-		// representation (only possible with integer constants >= 1e16)
+		// (c) the constant pool merges equal numbers of different representation
+		// and display text (only possible with integer constants >= 1e16)
 		var wide []core.Value
 		for _, c := range g.consts {
 			if n, ok := c.val.IfInt(); ok && (n >= 1e16 || n <= -1e16) {
@@ -824,13 +768,9 @@ func TestC30(t *testing.T) {
 				}
 			})
 			if merged {
-				rec.Label("equal_numbers_with_two_display_texts")
-				if kfPoolOK {
-					rec.Case(false, shapes[1].src)
-					rec.Excluded("constant-pool-merges-representations")
-					rec.Known(kfPool.What)
-					return
-				}
+				rec.Case(false, shapes[1].src)
+				rec.Excluded(doc16 + "equal numbers with two display texts")
+				return
 			}
 		}
 
@@ -931,6 +871,163 @@ func TestC30(t *testing.T) {
 		}
 		if rewrote && rec.WantSample(cls) {
 			rec.Sample(cls, map[string]string{"lit": shapes[1].src, "mix": shapes[2].src, "loc": shapes[3].src, "result": run.String()})
+		}
+	})
+
+	// side_effects: operands with an observable side effect next to an
+	// absorbing constant must be evaluated exactly as at run time (the
+	// documented "compiled to the constant" only covers operands that are
+	// just values). One chain of and / or / * / & / | with >= 1 absorbing
+	// constant and >= 1 side-effect operand (call of a counting block,
+	// assignment, increment); constants are literal / parameter / local
+	// depending on the shape; value AND side-effect state must agree.
+	rt.Check(t, rec, "side_effects", 3000, 60000, func(t *rapid.T) {
+		fams := []struct {
+			fam, op, abs string
+			other, rv    []string
+		}{
+			{"and", "and", "false", []string{"true"}, []string{"true", "false"}},
+			{"or", "or", "true", []string{"false"}, []string{"true", "false"}},
+			{"mul", "*", "0", []string{"2", "3", "1"}, []string{"2", "5", "0"}},
+			{"bitand", "&", "0", []string{"7", "-1", "12"}, []string{"6", "3", "0"}},
+			{"bitor", "|", "-1", []string{"0", "8", "3"}, []string{"4", "1", "-1"}},
+		}
+		f := fams[gen.Uniform(t, "fam", len(fams))]
+		logical := f.fam == "and" || f.fam == "or"
+		n := 2 + gen.Uniform(t, "n", 3)
+		var consts []string // constant slots
+		slot := func(text string) string {
+			consts = append(consts, text)
+			return fmt.Sprintf("\x00%d\x00", len(consts)-1)
+		}
+		absAt := gen.Uniform(t, "absAt", n)
+		usedX, usedI := false, false
+		var ops []string
+		sideLeft, sideRight, nside := false, false, 0
+		for k := 0; k < n; k++ {
+			if k == absAt {
+				ops = append(ops, slot(f.abs))
+				continue
+			}
+			kind := gen.Weighted(t, fmt.Sprint("kind", k), []int{40, 15, 15, 12, 10, 8})
+			if kind == 1 && usedX {
+				kind = 0
+			}
+			if kind == 2 && usedI {
+				kind = 0
+			}
+			side := true
+			switch kind {
+			case 0:
+				ops = append(ops, "f()")
+			case 1:
+				usedX = true
+				ops = append(ops, "(x = "+gen.Pick(t, fmt.Sprint("xv", k), f.rv)+")")
+			case 2:
+				usedI = true
+				inc := gen.Pick(t, fmt.Sprint("inc", k), []string{"i++", "++i", "i--"})
+				if logical {
+					ops = append(ops, "("+inc+" < 1)")
+				} else {
+					ops = append(ops, "("+inc+")")
+				}
+			case 3:
+				ops = append(ops, slot(gen.Pick(t, fmt.Sprint("oc", k), f.other)))
+				side = false
+			case 4:
+				ops = append(ops, "w")
+				side = false
+			default:
+				ops = append(ops, slot(f.abs)) // a second absorbing constant
+				side = false
+			}
+			if side {
+				nside++
+				if k < absAt {
+					sideLeft = true
+				} else {
+					sideRight = true
+				}
+			}
+		}
+		if nside == 0 {
+			// make sure there is a side effect: replace a non-absorbing operand
+			k := (absAt + 1) % n
+			ops[k] = "f()"
+			sideLeft, sideRight = sideLeft || k < absAt, sideRight || k > absAt
+		}
+		chain := strings.Join(ops, " "+f.op+" ")
+		rv := gen.Pick(t, "rv", f.rv)
+		wv := gen.Pick(t, "wv", f.other)
+		lit := make([]bool, len(consts))
+		for i := range lit {
+			lit[i] = rapid.Bool().Draw(t, fmt.Sprint("slit", i))
+		}
+		build := func(mode string) (string, []core.Value) {
+			params := []string{"w"}
+			args := []core.Value{compile.Constant(wv)}
+			var locals strings.Builder
+			body := chain
+			for i, c := range consts {
+				ph := fmt.Sprintf("\x00%d\x00", i)
+				txt := c
+				if strings.HasPrefix(c, "-") {
+					txt = "(" + c + ")"
+				}
+				switch {
+				case mode == "lit" || mode == "mix" && lit[i]:
+					body = strings.ReplaceAll(body, ph, txt)
+				case mode == "loc":
+					fmt.Fprintf(&locals, "v%d = %s; ", i, c)
+					body = strings.ReplaceAll(body, ph, fmt.Sprint("v", i))
+				default:
+					params = append(params, fmt.Sprint("p", i))
+					args = append(args, compile.Constant(c))
+					body = strings.ReplaceAll(body, ph, fmt.Sprint("p", i))
+				}
+			}
+			src := "function (" + strings.Join(params, ", ") + ") {\n" +
+				"\tn = 0; x = 9; x = 8; i = 0; " + locals.String() + "\n" +
+				"\tf = { n++; " + rv + " };\n" +
+				"\tr = (" + body + ");\n" +
+				"\tObject(r, n, x, i)\n}"
+			return src, args
+		}
+		describe := func(r realRes) string {
+			if r.failed() {
+				return "FAIL " + errText(r.err)
+			}
+			ob, ok := r.v.(*core.SuObject)
+			if !ok || ob.ListSize() != 4 {
+				return "?" + r.String()
+			}
+			var parts []string
+			for k := 0; k < 4; k++ {
+				v := ob.ListGet(k)
+				parts = append(parts, v.Type().String()+":"+safeString(v))
+			}
+			return strings.Join(parts, " ")
+		}
+		runSrc, runArgs := build("run")
+		run := compileAndCall(runSrc, runArgs...)
+		if run.failed() {
+			t.Fatalf("run-time version of a well-typed chain fails: %v\n%s", run, runSrc)
+		}
+		want := describe(run)
+		for _, mode := range []string{"lit", "mix", "loc"} {
+			src, args := build(mode)
+			got := describe(compileAndCall(src, args...))
+			if got != want {
+				t.Fatalf("%s version differs from the run-time version in value or side effects (r, calls of f, x, i)\n run: %s\n %s: %s\n run src:\n%s\n %s src:\n%s", mode, want, mode, got, runSrc, mode, src)
+			}
+		}
+		litSrc, _ := build("lit")
+		rec.Case(true, "SE:"+litSrc)
+		rec.Label("side_effects_" + f.fam)
+		rec.LabelIf(sideLeft, "side_effect_left_of_absorbing_constant")
+		rec.LabelIf(sideRight, "side_effect_right_of_absorbing_constant")
+		if rec.WantSample("C30_side_effects_" + f.fam) {
+			rec.Sample("C30_side_effects_"+f.fam, map[string]string{"lit": litSrc, "result(r n x i)": want})
 		}
 	})
 }
